@@ -172,7 +172,7 @@ PROPS = {
                 "bytes; non-trivial = distinct line with cut > 0",
         "extracted_keys": ["FRAME_MAX_PARSE_PAYLOAD", "ERROR_CODES", "CAPSULE_CLOSE_WEBTRANSPORT_SESSION",
                            "CONTROL_READ_PERSISTS_SETTINGS", "CONTROL_READ_PERSISTS_CONNECT",
-                           "CONTROL_DECISION_ATOMIC_SETTINGS", "CONTROL_DECISION_ATOMIC_CONNECT"],
+                           "CONTROL_DECISION_ATOMIC_SETTINGS", "CONTROL_DECISION_ATOMIC_CONNECT"],  # grease_capsule target: see rule
         "trusted": ["tokio::select! drops the futures of the branches that did not complete (language semantics)",
                     "a boxed future stored in a struct keeps its state when the future that was polling it is dropped"],
         "assumptions": ["pieces are separated by 80 ms on loopback, so each piece is one delivery"],
